@@ -282,7 +282,70 @@ def r09_5(ctx):
     ctx.ob('R09.5', 'LaxBoundedSemaphore.shrink:bound-and-value', ok, s2, None, '_initial_value -= 1 and acquire()')
 
 
+def r09_10(ctx):
+    ctx.rule('R09.10', 'the status a worker leaves with is the one of its last sys.exit(): the wrapper installed as '
+                       'sys.exit records every status, unconditionally (a task that once called sys.exit(3) and was '
+                       'handled must not decide the status of the recycle exit much later)', floor=1)
+    m = ctx.model
+    call = m.func('pool:Worker.__call__')
+    # the wrapper: the nested function that __call__ installs as sys.exit
+    installed = {ast.unparse(v) for (dn, t, v) in q.assigns(call, 'sys.exit') if v is not None}
+    wrappers = [ch for name, ch in call.children.items() if name in installed]
+    q.need(wrappers, 'Worker.__call__: the sys.exit wrapper that records the status was not found')
+    for w in wrappers:
+        P = w.positional_params()
+        # the record: a one-element list used as a cell, or a nonlocal name
+        recs = [(dn, t, v) for (dn, t, v) in q.assigns(w, None) if v is not None and P and ast.unparse(v) == P[0]]
+        guarded = [dn for (dn, t, v) in recs if q.guards_norm(w, dn)]
+        ok = bool(recs) and not guarded
+        ctx.ob('R09.10', 'exit-wrapper:records-every-status', ok, w, (guarded[0] if guarded else None),
+               '_exitcode[0] = status on every call' if ok else
+               'the status is recorded only under `%s`: an earlier, already handled sys.exit() of a task decides the '
+               'exit status of the worker' % sorted(t for (t, p) in q.guards_norm(w, guarded[0]))[0] if guarded else
+               'the wrapper does not record its argument')
+
+
+def r09_11(ctx):
+    ctx.rule('R09.11', 'a leaving worker stops waiting for the parent only when every result it sent was counted, or '
+                       'when the full retry budget is used up -- no other way out of the wait', floor=1)
+    m = ctx.model
+    fi = m.func('pool:Worker._ensure_messages_consumed')
+    cfg = fi.cfg
+    loops = [n for n in cfg.where(lambda n: n.kind == 'for')
+             if 'GUARANTEE_MESSAGE_CONSUMPTION_RETRY_LIMIT' in ast.unparse(n.stmt.iter) or 'range' in ast.unparse(n.stmt.iter)]
+    q.need(loops, '_ensure_messages_consumed: retry loop not found')
+    P = fi.positional_params()[1]
+    lp = loops[0]
+    early = list(q.loop_early_exits(fi, lp))
+    def is_reached(e):
+        # <counter>.value >= completed, the counter possibly through a local alias
+        if not (isinstance(e, ast.Compare) and len(e.ops) == 1):
+            return False
+        a, b = e.left, e.comparators[0]
+        if isinstance(e.ops[0], ast.LtE):
+            a, b = b, a
+        elif not isinstance(e.ops[0], ast.GtE):
+            return False
+        return fi.canon(a) == 'self.on_ready_counter.value' and ast.unparse(b) == P
+    reached = [t for t in cfg.where(lambda t: t.kind == 'test') if is_reached(t.ast)]
+    bad = [n for n in early if not any(q.has_guard(fi, n, *q.norm_guard(fi, t.ast, True)) for t in reached)]
+    ctx.ob('R09.11', '_ensure_messages_consumed:leaves-early-only-when-consumed', bool(reached) and not bad, fi,
+           bad[0] if bad else lp,
+           'the loop is left early only under on_ready_counter.value >= completed' if not bad else
+           'the wait is given up before the retry budget is used although results are outstanding: the worker exits, '
+           'is reaped, and its finished job is failed as lost')
+    it = ast.unparse(lp.stmt.iter).replace(' ', '')
+    ctx.ob('R09.11', '_ensure_messages_consumed:full-retry-budget', it == 'range(GUARANTEE_MESSAGE_CONSUMPTION_RETRY_LIMIT)',
+           fi, lp, 'for retry in %s' % it)
+
+
 def run(ctx):
+    r09_10(ctx)
+    r09_11(ctx)
+    # a replacement worker is entered in the per-pid tables before the user hook (borrowed from C07): a worker whose
+    # first result was not credited waits out the 30 s guard when it is recycled, with its slot
+    from .c07 import r07_14 as _r07_14
+    _r07_14(ctx)
     # the status a recycled worker leaves with is the one it chose: os._exit on every edge of the farewell (borrowed from C08)
     from .c08 import r08_2 as _r08_2
     from ..report import Only as _Only9
@@ -316,6 +379,8 @@ def run(ctx):
 
 _P = 'billiard/pool.py'
 MUTANTS = [
+    ('exit-wrapper-keeps-the-first-status', _P, "        def exit(status=None):\n            _exitcode[0] = status\n", "        def exit(status=None):\n            if _exitcode[0] is None:\n                _exitcode[0] = status\n", 'R09.10'),
+    ('consumption-wait-gives-up-on-a-stall', _P, "            time.sleep(GUARANTEE_MESSAGE_CONSUMPTION_RETRY_INTERVAL)\n", "            if retry > 30:\n                break\n            time.sleep(GUARANTEE_MESSAGE_CONSUMPTION_RETRY_INTERVAL)\n", 'R09.11'),
     ('grow-starts-workers-itself', _P, "                self._putlock.grow()\n        self.on_grow(n)\n",
      "                self._putlock.grow()\n        self._repopulate_pool([])\n        self.on_grow(n)\n", 'R09.7'),
     ('one-too-many', _P, "        for i in range(self._processes - len(self._pool)):\n            if self._state != RUN:",
